@@ -70,14 +70,22 @@ def new_repo(ctx, tag, idx, cache=False, config_extra=""):
 
 
 # ===================================================================================================== C10
-ENV_VARS = ["A", "B", "TMP_DIR"]
+ENV_VARS = ["A", "B", "TMP_DIR", "PATH"]
+BASE_PATH = "/usr/local/bin:/usr/bin:/bin"     # what e2e.Repo gives the plz process; the caller's PATH stays usable
 WELL_KNOWN = ["LANG", "LC_ALL", "USER", "LOGNAME", "SHELL", "TERM", "TZ", "EDITOR", "GOPATH", "GOROOT", "PYTHONPATH", "CC", "CFLAGS",
               "JAVA_HOME", "SSH_AUTH_SOCK", "DISPLAY", "OLDPWD", "MAIL", "HOSTNAME", "TMP", "TEMP", "PKG_CONFIG_PATH", "SHLVL_X"]
 
 
+def env_marker(v, val):
+    """A token that occurs nowhere else and is part of the concrete caller value of model value val for variable v."""
+    return "q%sq%sq" % (v, val)
+
+
 def env_token(v, val):
-    """The concrete caller value of model value val for variable v: a token that occurs nowhere else."""
-    return ("/nonexistent/q%sq%sq" if v == "TMP_DIR" else "q%sq%sq") % (v, val)
+    """The concrete caller value: the marker itself, a path made of it, or (PATH) a working PATH plus a marker directory."""
+    if v == "PATH":
+        return BASE_PATH + ":/nonexistent/" + env_marker(v, val)
+    return ("/nonexistent/" if v == "TMP_DIR" else "") + env_marker(v, val)
 
 
 def render_env(env):
@@ -146,8 +154,9 @@ def c10_replay(ctx, idx, beh):
         ran = {l for l in started}
         must = {e2e.label(t) for t in st["mustRun"]}
         maynot = {e2e.label(t) for t in st["mayNotRun"]}
-        if must - ran:
-            viols.append(("C10 pass_env-value-change-did-not-rebuild", dict(detail, missing=sorted(must - ran))))
+        for t in st["mustRun"]:
+            if e2e.label(t) not in ran:
+                viols.append((c10_missing_signature(beh, st, t), dict(detail, missing=e2e.label(t), changed=st["changed"][t - 1])))
         if ran & maynot:
             viols.append(("C10 rebuild-triggered-by-unhashed-caller-variable", dict(detail, reran=sorted(ran & maynot))))
         if sorted(ran) != sorted(e2e.label(t) for t in st["algoRan"]):
@@ -174,6 +183,10 @@ def c10_replay(ctx, idx, beh):
                 elif want == "unset":
                     if dump.get(v, "") != "":
                         viols.append(("C10 listed-variable-wrong-value", dict(detail, target=t, var=v, value=dump.get(v), want="")))
+                elif v == "PATH":
+                    # plz may put its own location in front (config-level passenv / passunsafeenv); the caller's value follows
+                    if not (dump.get(v) == env_token(v, want) or dump.get(v, "").endswith(":" + env_token(v, want))):
+                        viols.append(("C10 listed-variable-wrong-value", dict(detail, target=t, var=v, value=dump.get(v), want="[<plz location>:]" + env_token(v, want))))
                 elif dump.get(v) != env_token(v, want):
                     viols.append(("C10 listed-variable-wrong-value", dict(detail, target=t, var=v, value=dump.get(v), want=env_token(v, want))))
             for name, tok in planted.items():
@@ -183,7 +196,7 @@ def c10_replay(ctx, idx, beh):
             for v in ENV_VARS:
                 if sees[v] in ("absent", "own"):
                     for x in ("v0", "v1"):
-                        if env_token(v, x) in text:
+                        if env_marker(v, x) in text:
                             viols.append(("C10 unlisted-caller-variable-visible-to-action", dict(detail, target=t, var=v, leaked_value=True)))
             # the whole environment is a function of configuration, target and listed values: identical (modulo the
             # repository root) in every run, history and scratch repository with the same listed values
@@ -204,8 +217,19 @@ def c10_replay(ctx, idx, beh):
 
 
 def c10_class(beh):
-    """Configuration x which variables change between builds."""
-    return json.dumps([beh["cfg"], sorted({s["v"] for s in beh["steps"] if s["act"] == "SetEnv"}), len(beh["steps"])])
+    """Configuration x which variables change between builds (at most 8 x 10 classes at two changes: every one of
+    them is exercised by a quick sample)."""
+    return json.dumps([beh["cfg"], sorted({s["v"] for s in beh["steps"] if s["act"] == "SetEnv"})])
+
+
+def c10_missing_signature(beh, st, t):
+    """Class of a missed rebuild: which kind of hashed variable changed and at which level it is listed."""
+    parts = []
+    for v in sorted(st["changed"][t - 1]):
+        level = "target" if v in beh["passEnv"][t - 1] else "config"
+        kind = "PATH" if v == "PATH" else ("plz-own-variable" if v in beh["own"] else "ordinary")
+        parts.append("%s-level-pass_env:%s" % (level, kind))
+    return "C10 pass_env-value-change-did-not-rebuild " + ("+".join(sorted(set(parts))) or "never-built")
 
 
 def c10_nontrivial(beh):
@@ -215,8 +239,8 @@ def c10_nontrivial(beh):
 
 CLAIM10 = dict(
     category="model_checking", design_ref="DESIGN.md §4 C10",
-    text="BuildEnv.tla models a caller environment (A, B and TMP_DIR, which plz sets itself; values unset/v0/v1), four genrules with "
-         "different pass_env lists and six configurations of [build] passenv / passunsafeenv; the property level states what each action may "
+    text="BuildEnv.tla models a caller environment (A, B, TMP_DIR, which plz sets itself, and PATH, which is plz's own unless listed; values unset/v0/v1, PATH never unset), four genrules with "
+         "different pass_env lists (one naming PATH) and eight configurations of [build] passenv / passunsafeenv (incl. passenv = PATH, passunsafeenv = PATH); the property level states what each action may "
          "see (listed variables with the caller's value, nothing else, plz's own variables untouched), which targets must re-run (a hashed "
          "variable changed since the target's last run) and which may not; TLC checks the algorithm model (ruleHash and Configuration.Hash "
          "cover pass_env values, not passunsafeenv; TargetEnvironment/BuildEnvironment) against it and prints SetEnv/Build histories. Each "
@@ -226,7 +250,7 @@ CLAIM10 = dict(
          "identical, and the whole dumped environment is identical (modulo repository root) across all runs with the same listed values.",
     note="Target-level pass_unsafe_env does not exist in the pinned tree (BuildTarget.PassUnsafeEnv is never assigned), so pass_unsafe_env is "
          "exercised through [build] passunsafeenv; an unset listed variable may appear as absent or empty (os.Getenv); sandboxed actions are "
-         "not exercised (no sandbox tool offline); bounded: 3 variables x 3 values, 4 targets, 6 configurations, histories of <=2 (quick) / <=3 "
+         "not exercised (no sandbox tool offline); bounded: 4 variables x <=3 values, 4 targets, 8 configurations, histories of <=2 (quick) / <=3 "
          "(thorough) environment changes sampled round-robin over history classes (110 / 1200 histories), the model itself checked to 4 changes; "
          "besides the modelled variables every invocation plants never-listed variables (fresh VERIF_LEAK_n names and well-known names such as "
          "LANG, USER, TERM, TZ with random values); trusted: the action log and the env dump written by the generated commands.",
